@@ -310,6 +310,13 @@ func TestVerifC38Backend(t *testing.T) {
 					addClass("be:to-EOF-load-from-truncated-cache-copy")
 					return ""
 				}
+				// a ranged load whose cached copy is cut by the other process AFTER the cache checked its
+				// size and opened it reads fewer bytes than asked for (thorough tier, 5 concurrent loads):
+				// the same class, nothing the cache layer can notice
+				if trunc && len(l.got) < len(want) && bytes.Equal(l.got, want[:len(l.got)]) {
+					addClass("be:ranged-load-from-cache-copy-truncated-meanwhile")
+					return ""
+				}
 				// the same for the short moment in which a download that is breaking off has already
 				// renamed its (half) file into the cache and cacheFile has not yet removed it again: a
 				// CONCURRENT to-EOF load may be served from it and end early (the repository level's
